@@ -3,6 +3,7 @@ import RSV.Props.C04gf8
 import RSV.Props.C04range
 import RSV.Props.C04gf16
 import RSV.Props.C05bitfield
+import RSV.Props.C05leoAll
 import RSV.Props.Consts
 /-!
 # C05 umbrella — Leopard Reconstruct
